@@ -98,6 +98,8 @@ type mOp struct {
 	B    bool
 	K    int
 	Self bool
+	Quiet bool // part of a composite API call: executed by the model, not observed
+	NoRes bool // last part of a composite call: observed, but the boolean result is the composite's
 }
 
 func (o mOp) Sx() string {
@@ -125,7 +127,13 @@ func (o mOp) Sx() string {
 		panic("bad op kind " + o.Kind)
 	}
 	if o.Self {
-		return L("self", s)
+		s = L("self", s)
+	}
+	if o.Quiet {
+		return L("quiet", s)
+	}
+	if o.NoRes {
+		return L("nores", s)
 	}
 	return s
 }
